@@ -74,6 +74,26 @@ def check_idem(c, out1):
     return None, None
 
 
+def sorted_defs(text):
+    """the document with the children of <defs> sorted by id"""
+    from lxml import etree
+    root = etree.fromstring(text.encode("utf-8"))
+    for d in root.iter("{http://www.w3.org/2000/svg}defs"):
+        kids = sorted(list(d), key=lambda e: e.attrib.get("id", ""))
+        for k in list(d):
+            d.remove(k)
+        for k in kids:
+            d.append(k)
+    return etree.tostring(root)
+
+
+def only_defs_order(a, b):
+    try:
+        return a != b and sorted_defs(a) == sorted_defs(b)
+    except Exception:
+        return False
+
+
 def diff_hint(a, b):
     for i, (x, y) in enumerate(zip(a, b)):
         if x != y:
@@ -109,6 +129,8 @@ def search(ctx, disagreements):
             tag = None
             if out2 is not None and "Gradient" in out1 and out2.count("Gradient") < out1.count("Gradient"):
                 tag = "orphan-gradient-after-pruning"
+            elif out2 is not None and only_defs_order(out1, out2) and check_idem(c, out2)[0] is None:
+                tag = "defs-order-front-insertion"
             found.append({"kind": "idempotence", "input": c, "tag": tag,
                           "detail": why + ("; " + diff_hint(out1, out2) if out2 is not None else ""), "pass1": out1[:1500]})
     ctx.stats["evaluations"] = ctx.stats.get("evaluations", 0) + len(items)
@@ -120,6 +142,16 @@ def classify(v, findings):
         if e.get("status") == "finding" and v.get("tag") and v.get("tag") == e.get("tag"):
             return e["id"]
     return None
+
+
+def replay_finding(ctx, e):
+    c = e["witness"]
+    SVG = pipeline.impl()
+    o, out1 = common.outcome_of(lambda: SVG.fromstring(c["src"]).topicosvg(ndigits=c["ndigits"]).tostring())
+    if o != "ok":
+        return False
+    why, out2 = check_idem(c, out1)
+    return bool(why)
 
 
 def replay(ctx, payload):
